@@ -433,12 +433,31 @@ def sizes_for(fam, side, unit_calls, target, min_n, doublings, nested_n, jitter=
 
 
 # ---------------------------------------------------------------------------------------------- measurement tasks
+def _counted(w, fn, err):
+    """append the call count of fn() to w; a family member that the tree under test rejects (any exception) ends the
+    series: what completed is still judged, the failure is reported as a note (functional behaviour is not C20's subject)"""
+    try:
+        w.append(count_calls(fn))
+        return True
+    except Exception as x:
+        err.append('%s: %s' % (type(x).__name__, str(x)[:160].replace('\n', ' ')))
+        return False
+
+
 def measure_calls(task):
+    try:
+        return _measure_calls(task)
+    except Exception as x:              # warm-up or probe member rejected
+        return {'kind': 'ratio', 'family': task[1], 'api': task[2], 'n': 0, 'sizes': [], 'w': [],
+                'error': '%s: %s' % (type(x).__name__, str(x)[:160].replace('\n', ' '))}
+
+
+def _measure_calls(task):
     """task = (side, family, api, target, min_n, doublings, nested_n, jitter) -> record for Trace_Work (kind ratio)"""
     from .common import use_repo
     yaml = use_repo()
     side, fam, api, target, min_n, doublings, nested_n, jitter = task
-    w = []
+    w, err = [], []
     if side == 'load':
         gen = LOAD[fam]
         fn = load_apis(yaml)[api]
@@ -448,7 +467,8 @@ def measure_calls(task):
         sizes = sizes_for(fam, side, unit, target, min_n, doublings, nested_n, jitter)
         for n in sizes:
             text = gen(n)
-            w.append(count_calls(lambda: fn(text)))
+            if not _counted(w, lambda: fn(text), err):
+                break
     else:
         if api in ('emit_text', 'serialize_text'):
             gen, kw = TEXT_FED[fam], {}
@@ -469,11 +489,16 @@ def measure_calls(task):
         sizes = sizes_for(fam, side, unit, target, min_n, doublings, nested_n, jitter)
         for n in sizes:
             if api in ('serialize', 'emit', 'emit_text', 'serialize_text'):
-                w.append(count_calls(f(gen(n), kw)))
+                if not _counted(w, f(gen(n), kw), err):
+                    break
             else:
                 v = gen(n)
-                w.append(count_calls(lambda: f(v, kw)))
-    return {'kind': 'ratio', 'family': fam, 'api': api, 'n': sizes[0], 'sizes': sizes, 'w': w}
+                if not _counted(w, lambda: f(v, kw), err):
+                    break
+    r = {'kind': 'ratio', 'family': fam, 'api': api, 'n': sizes[0], 'sizes': sizes, 'w': w}
+    if err:
+        r['error'] = err[0]
+    return r
 
 
 # ---------------------------------------------------------------------------------------------- primitive lengths
@@ -547,49 +572,56 @@ def measure_prims(task):
     side, fam, api, sizes = task
     PL, PD = make_probes(yaml)
     q, k, b, e, units, block, size, look = [], [], [], [], [], 0, 0, 0
+    error = None
     for n in sizes:
-        if side == 'load':
-            text = LOAD[fam](n)
-            src = io.StringIO(text) if api == 'load_stream' else text
-            ld = PL(src)
-            try:
-                while ld.check_data():
-                    ld.get_data()
-            finally:
-                ld.dispose()
-            pr = ld.pr
-            q.append(pr['q']); k.append(pr['k']); b.append(pr['b']); e.append(0)
-            units.append(pr['units'] + 1)
-            block = max(block, pr['block'])
-            size = len(text)
-            look = max(len(x) for x in text.split('\n'))
-        elif api == 'emit_text':
-            evs = list(yaml.parse(TEXT_FED[fam](n), Loader=yaml.SafeLoader))
-            d = PD(io.StringIO())
-            try:
-                for ev in evs:
-                    d.emit(ev)
-            finally:
-                d.dispose()
-            q.append(0); k.append(0); b.append(0); e.append(d.pr['e'])
-            units.append(d.pr['units'] + 1)
-            continue
-        else:
-            gen, kw = DUMP[fam]
-            out = io.StringIO()
-            d = PD(out, **kw)
-            try:
-                d.open()
-                d.represent(gen(n))
-                d.close()
-            finally:
-                d.dispose()
-            q.append(0); k.append(0); b.append(0); e.append(d.pr['e'])
-            units.append(d.pr['units'] + 1)
+        try:
+            if side == 'load':
+                text = LOAD[fam](n)
+                src = io.StringIO(text) if api == 'load_stream' else text
+                ld = PL(src)
+                try:
+                    while ld.check_data():
+                        ld.get_data()
+                finally:
+                    ld.dispose()
+                pr = ld.pr
+                q.append(pr['q']); k.append(pr['k']); b.append(pr['b']); e.append(0)
+                units.append(pr['units'] + 1)
+                block = max(block, pr['block'])
+                size = len(text)
+                look = max(len(x) for x in text.split('\n'))
+            elif api == 'emit_text':
+                evs = list(yaml.parse(TEXT_FED[fam](n), Loader=yaml.SafeLoader))
+                d = PD(io.StringIO())
+                try:
+                    for ev in evs:
+                        d.emit(ev)
+                finally:
+                    d.dispose()
+                q.append(0); k.append(0); b.append(0); e.append(d.pr['e'])
+                units.append(d.pr['units'] + 1)
+                continue
+            else:
+                gen, kw = DUMP[fam]
+                out = io.StringIO()
+                d = PD(out, **kw)
+                try:
+                    d.open()
+                    d.represent(gen(n))
+                    d.close()
+                finally:
+                    d.dispose()
+                q.append(0); k.append(0); b.append(0); e.append(d.pr['e'])
+                units.append(d.pr['units'] + 1)
+        except Exception as x:
+            error = '%s: %s' % (type(x).__name__, str(x)[:160].replace('\n', ' '))
+            m_ = min(len(q), len(k), len(b), len(e))
+            q, k, b, e = q[:m_], k[:m_], b[:m_], e[:m_]
+            break
     n0 = sizes[0]
     depth = DEPTH.get(fam, lambda n: 4)(sizes[-1]) if side == 'load' else 0
     flow = FLOW.get(fam, lambda n: 3)(sizes[-1]) if side == 'load' else 0
     # 'units' (summed primitive lengths) is carried for the evidence file only: below the saturation of the
     # simple-key table (1024 characters) and of the first reader block it is not yet linear, so it is not judged
     return {'kind': 'prim', 'family': fam, 'api': api, 'n': n0, 'q': q, 'k': k, 'b': b, 'e': e, 'depth': depth, 'flow': flow,
-            'look': look, 'block': block if block > 0 else 0, 'size': size, 'units': units}
+            'look': look, 'block': block if block > 0 else 0, 'size': size, 'units': units, 'error': error}
